@@ -25,6 +25,16 @@ pub struct Case {
     pub roller: RollSpec,
     pub chunks: Option<Vec<usize>>,
     pub ops: Vec<Op>,
+    /// open mode (truncate mode only in histories without restarts: the statement's restart clause is about append mode)
+    #[serde(default = "yes")]
+    pub append_mode: bool,
+    /// user-defined roller around the real one failing on scripted calls (no bursts in such histories)
+    #[serde(default)]
+    pub flaky: Vec<bool>,
+}
+
+fn yes() -> bool {
+    true
 }
 
 pub const FIXED_PATTERNS: [&str; 4] = ["a.{}.log", "arch/{}/a.log", "a.{}.log.gz", "a.{}.zst"];
@@ -71,8 +81,20 @@ pub fn strategy() -> impl Strategy<Value = Case> {
         roller_strategy(0),
         prop::option::weighted(0.3, prop::collection::vec(prop_oneof![1usize..8, 500usize..1100], 1..=4)),
         prop::collection::vec(op, 1..=40),
+        prop::bool::weighted(0.75),
+        prop_oneof![4 => Just(vec![]), 1 => prop::collection::vec(prop::bool::weighted(0.4), 1..=6)],
     )
-        .prop_map(|(trigger, roller, chunks, ops)| Case { trigger, roller, chunks, ops })
+        .prop_map(|(trigger, roller, chunks, mut ops, append_mode, flaky)| {
+            if !flaky.is_empty() {
+                for o in ops.iter_mut() {
+                    if let Op::Burst(plan) = o {
+                        *o = Op::Append(plan[0][0]);
+                    }
+                }
+            }
+            let append_mode = append_mode || ops.iter().any(|o| matches!(o, Op::Restart));
+            Case { trigger, roller, chunks, ops, append_mode, flaky }
+        })
 }
 
 pub fn archive_path(dir: &Path, roller: &RollSpec, off: u32) -> Option<std::path::PathBuf> {
@@ -137,10 +159,13 @@ pub fn check(tmp: &Path, case: &Case, obs: &mut Obs) -> CaseResult {
 
 fn check_in(dir: &Path, case: &Case, obs: &mut Obs) -> CaseResult {
     let active = dir.join("active.log");
+    let failures = Arc::new(std::sync::atomic::AtomicUsize::new(0));
+    // records whose append returned Err (scripted roller failure): they may or may not be on disk
+    let mut unacked: Vec<RecId> = vec![];
     let build = || -> Result<Arc<RollingFileAppender>, Failure> {
-        let policy = make_policy(dir, &case.trigger, &case.roller).map_err(|e| Failure { sig: "C05:build".into(), msg: e.to_string() })?;
+        let policy = make_flaky_policy(dir, &case.trigger, &case.roller, &case.flaky, &failures).map_err(|e| Failure { sig: "C05:build".into(), msg: e.to_string() })?;
         // restarts on the same path are in the statement's scope in append mode only
-        Ok(Arc::new(build_appender(&active, true, &case.chunks, policy).map_err(|e| Failure { sig: "C05:build".into(), msg: e.to_string() })?))
+        Ok(Arc::new(build_appender(&active, case.append_mode, &case.chunks, policy).map_err(|e| Failure { sig: "C05:build".into(), msg: e.to_string() })?))
     };
     let mut app = build()?;
     let mut now = T0;
@@ -164,9 +189,15 @@ fn check_in(dir: &Path, case: &Case, obs: &mut Obs) -> CaseResult {
                 let id = RecId { tid: 0, seq, len: *len };
                 let text = record_text(0, seq, *len);
                 seq += 1;
+                let failures_before = failures.load(std::sync::atomic::Ordering::SeqCst);
                 match catch(|| append_msg(&*app, &text)) {
                     Err(p) => return fail("C05:panic", format!("op {}: append panicked: {}", oi, p)),
-                    Ok(Err(e)) => return fail("C05:append-error", format!("op {}: append returned an error on an unobstructed directory: {}", oi, e)),
+                    Ok(Err(e)) => {
+                        ensure!(failures.load(std::sync::atomic::Ordering::SeqCst) > failures_before, "C05:append-error", "op {}: append returned an error although nothing failed: {}", oi, e);
+                        // in position if present: it takes part in the reference order, unacknowledged
+                        unacked.push(id.clone());
+                        acked.push(id);
+                    }
                     Ok(Ok(())) => acked.push(id),
                 }
                 if record_size(*len) > 1024 || limit.map_or(false, |l| record_size(*len) as u64 > l) {
@@ -216,6 +247,9 @@ fn check_in(dir: &Path, case: &Case, obs: &mut Obs) -> CaseResult {
         match &burst_records {
             None => {
                 // single-threaded: the retained stream is a suffix of the acknowledged stream
+                // (records of failed appends may be absent: they are removed from the reference when missing)
+                let reference: Vec<RecId> = acked.iter().filter(|r| !unacked.contains(r) || stream.contains(r)).cloned().collect();
+                let acked = &reference;
                 ensure!(stream.len() <= acked.len(), "C05:duplicated", "op {}: {} records on disk, only {} acknowledged", oi, stream.len(), acked.len());
                 let k = acked.len() - stream.len();
                 ensure!(
@@ -272,7 +306,7 @@ fn check_in(dir: &Path, case: &Case, obs: &mut Obs) -> CaseResult {
         prev_active = cur_active;
     }
     settle(dir);
-    obs.nontrivial = rotations >= 2 && (restart_between || big_record || burst_seen);
+    obs.nontrivial = rotations >= 2 && (restart_between || big_record || burst_seen || failures.load(std::sync::atomic::Ordering::SeqCst) > 0);
     obs.class(format!("rotations={}", rotations.min(6)));
     obs.class(match &case.trigger {
         TrigSpec::Size(_) => "trigger=size".to_string(),
@@ -288,6 +322,8 @@ fn check_in(dir: &Path, case: &Case, obs: &mut Obs) -> CaseResult {
     obs.class_if(big_record, "record>limit-or->1KiB");
     obs.class_if(burst_seen, "burst");
     obs.class_if(case.chunks.is_some(), "multi-chunk-encoder");
+    obs.class_if(!case.append_mode, "truncate-mode");
+    obs.class_if(failures.load(std::sync::atomic::Ordering::SeqCst) > 0, "scripted-roller-failure");
     Ok(())
 }
 
@@ -315,7 +351,7 @@ pub fn replay(part: &str, case: serde_json::Value) -> Option<CaseResult> {
 pub fn meta() -> EvidenceMeta {
     EvidenceMeta {
         level: "exploration",
-        rule: "cases = trigger (size with limit 0-4000, on-start-up, time driven through the guarded clock, user-defined scripted trigger with generated answers and pre/post-processing) x roller (delete; fixed window with base in {0,1,7,u32::MAX-count}, count 0-5, plain/.gz/.zst, index in file name or directory) x pattern or multi-chunk encoder x history of 1-40 operations: appends of self-delimiting records (payload 0-3 KiB incl. newlines and multi-byte text), restarts on the same path (append mode), clock advances, concurrent bursts of 2-5 threads; oracle after every operation: every retained file parses into whole uncorrupted records; archives oldest-to-newest then the active file yield a gap-free suffix of the acknowledged stream (bursts: per-thread suffixes in order, no duplicates, nothing invented, earlier records first); records disappear only when the retention window was full (or delete/count 0); append never returns Err. non-trivial = >= 2 rotations and (a restart between them, or a record larger than the limit or 1 KiB, or a burst)".into(),
+        rule: "cases = trigger (size with limit 0-4000, on-start-up, time driven through the guarded clock, user-defined scripted trigger with generated answers and pre/post-processing) x roller (delete; fixed window with base in {0,1,7,u32::MAX-count}, count 0-5, plain/.gz/.zst, index in file name or directory) x pattern or multi-chunk encoder x history of 1-40 operations: appends of self-delimiting records (payload 0-3 KiB incl. newlines and multi-byte text), restarts on the same path (append mode), clock advances, concurrent bursts of 2-5 threads; oracle after every operation: every retained file parses into whole uncorrupted records; archives oldest-to-newest then the active file yield a gap-free suffix of the acknowledged stream (bursts: per-thread suffixes in order, no duplicates, nothing invented, earlier records first); records disappear only when the retention window was full (or delete/count 0); append returns Err only for the scripted failures of a user-defined roller wrapped around the real one (file left in place; earlier acknowledged records must survive, also in truncate mode). non-trivial = >= 2 rotations and (a restart between them, or a record larger than the limit or 1 KiB, or a burst)".into(),
         assumptions: vec!["OS scheduler not controlled (bursts are real threads)".into(), "restarts in append mode only (statement's scope)".into()],
         mutants_caught: vec![],
     }
